@@ -186,28 +186,28 @@ type preResult struct {
 }
 
 type sysRun struct {
-	h        history
-	srv      *lrsrv.Srv
-	ctx      context.Context
-	src      string
-	jrnl     journal.Journal
-	allTs    []int64
-	batches  [][]int64
-	full     []int // cached unbounded read (sequence numbers), nil = stale
-	fullErr  string
-	lines    []string
-	checks   []func(ans string)
-	done     []op // writes / rebuilds executed so far (the prefix that reproduces the current state)
-	asyncReb bool // the model reported an index corrupted at write time: the rebuild raced with the flush, points are not compared any more
-	sec      *vh.Section
-	section  string
-	verbose  bool
-	nq       int
-	lossSeen map[string]bool
-	flushIn  *flushCase // set in section flushrace: the reproduction of a failing query is the whole flush case
-	pre      *preResult // result of a query the caller ran itself
-	schedFinding string // set by the parked-schedule replays: the finding a loss with IMPL = MODEL belongs to
-	hullRace bool // the writer of the last batch is parked before onWriteCIndex (deterministic replay of F46)
+	h            history
+	srv          *lrsrv.Srv
+	ctx          context.Context
+	src          string
+	jrnl         journal.Journal
+	allTs        []int64
+	batches      [][]int64
+	full         []int // cached unbounded read (sequence numbers), nil = stale
+	fullErr      string
+	lines        []string
+	checks       []func(ans string)
+	done         []op // writes / rebuilds executed so far (the prefix that reproduces the current state)
+	asyncReb     bool // the model reported an index corrupted at write time: the rebuild raced with the flush, points are not compared any more
+	sec          *vh.Section
+	section      string
+	verbose      bool
+	nq           int
+	lossSeen     map[string]bool
+	flushIn      *flushCase // set in section flushrace: the reproduction of a failing query is the whole flush case
+	pre          *preResult // result of a query the caller ran itself
+	schedFinding string     // set by the parked-schedule replays: the finding a loss with IMPL = MODEL belongs to
+	hullRace     bool       // the writer of the last batch is parked before onWriteCIndex (deterministic replay of F46)
 }
 
 func (r *sysRun) ask(line string, check func(ans string)) {
@@ -663,6 +663,7 @@ func (r *sysRun) doQuery(o op, specOnly bool) {
 		return
 	}
 	verbose := r.verbose
+	sched := r.schedFinding
 	r.ask(fmt.Sprintf("r.scan %s %s %d", optS(elo), optS(ehi), page), func(ans string) {
 		f := map[string]string{}
 		for _, kv := range strings.Fields(ans) {
@@ -687,8 +688,8 @@ func (r *sysRun) doQuery(o op, specOnly bool) {
 			return
 		}
 		finding := ""
-		if kind == "hidden-event" && eq && r.schedFinding != "" {
-			finding = r.schedFinding
+		if kind == "hidden-event" && eq && sched != "" {
+			finding = sched
 		} else if kind == "hidden-event" && eq && r.hullRace {
 			// deterministic schedule; the model (journal updated, chunk index not) shows the same loss
 			finding = "F46"
